@@ -200,7 +200,7 @@ open Sonic.Model.Number in
 theorem native_path_agrees' (buf : List Nat) (len start : Nat) (t : Token)
     (ht : scanToken (buf.drop start) = some t) (hlen : start + t.len ≤ len)
     (hg : nativeGuard t ((buf.drop start).drop t.len) = true)
-    (hexp : (expVal t.exp).natAbs < 100000) :
+    (hexp : (expVal t.exp).natAbs < 10000000000000000 ∨ t.len < 2 ^ 32) :
     (∀ v n, parseNumber buf len start = .ok v n .native → scanNumber buf start = .ok v n) ∧
     (∀ p, parseNumber buf len start = .err errInfinity p → scanNumber buf start = .infinity p) := by
   apply native_path_agrees buf len start t ht (scanToken_take _ t (len - start) ht (by omega)) _ hexp
